@@ -9,7 +9,9 @@
 //	                      restart (Info from the index info block) and after a second restart (.frac-cache).
 //
 // Expected values are the ones TimePrune.tla computed; this file only maps model time to real time
-// (real MID = base + model value; 0 -> 0; qinf -> MaxInt64) and compares.
+// (real MID = base + model value; 0 -> 0; qinf -> MaxInt64, or MaxUint64 with -inf maxuint64) and compares.
+// Every disagreement carries a level: "property" (the code hides a document / differs from the reference
+// / crashes) or "conformance" (the code differs from the transcription without hiding anything).
 package main
 
 import (
@@ -72,6 +74,7 @@ type QueryM struct {
 	Limit int        `json:"limit"`
 	Hit   []bool     `json:"hit"`
 	HitRT []bool     `json:"hitRT"`
+	Must  []bool     `json:"must"`
 	Total int        `json:"total"`
 	IDs   [][2]int64 `json:"ids"`
 }
@@ -93,6 +96,7 @@ type Case struct {
 	BucketSec int64   `json:"bucketSec"`
 	Hit       [][]int `json:"hit"`
 	HitRT     [][]int `json:"hitRT"`
+	Must      [][]int `json:"must"`
 	// real
 	C     int64      `json:"c"`
 	QInf  int64      `json:"qinf"`
@@ -106,13 +110,17 @@ type Case struct {
 
 var (
 	mode     = flag.String("mode", "unit", "unit | e2e (for k=real cases)")
+	infRep   = flag.String("inf", "maxint64", "representative of the model's +inf query end: maxint64 | maxuint64; with maxuint64 only the queries ending at +inf are replayed (the rest is covered by the default pass)")
 	workers  = flag.Int("workers", 8, "parallel cases")
 	progress = flag.Bool("progress", false, "print begin/end markers (crash attribution)")
 	outMu    sync.Mutex
 	evals    atomic.Int64
 	nontriv  atomic.Int64
 	corpora  atomic.Int64
+	nmism    atomic.Int64
 )
+
+const maxMism = 400
 
 func emit(v any) {
 	b, _ := json.Marshal(v)
@@ -121,8 +129,33 @@ func emit(v any) {
 	outMu.Unlock()
 }
 
-func mism(c *Case, path, what string, got, exp any) {
-	emit(map[string]any{"n": c.n, "path": path, "what": what, "got": got, "exp": exp})
+// A mismatch is "property" level when the real code hides something the reference says is there (a
+// pruning answer "no" where a document lies in the range, a search/fetch result that differs from the
+// reference over all documents, a crash).  It is "conformance" level when the code merely differs from
+// the transcription in a direction that cannot hide documents (an extra bit, a coarser answer): then
+// the exhaustive TLC result no longer speaks about this code and the specification must be updated.
+func mism(c *Case, level, path, what string, got, exp any) {
+	if nmism.Add(1) > maxMism { // a broken primitive disagrees on millions of table entries
+		return
+	}
+	emit(map[string]any{"n": c.n, "level": level, "path": path, "what": what, "got": got, "exp": exp})
+}
+
+const (
+	prop = "property"
+	conf = "conformance"
+)
+
+// prune classifies a pruning answer: got=false where a document is in range hides it.
+func prune(c *Case, path, what string, got, exp, must bool) {
+	if got == exp {
+		return
+	}
+	if !got && must {
+		mism(c, prop, path, what+": answers 'no documents' although a document lies in the range", got, exp)
+		return
+	}
+	mism(c, conf, path, what, got, exp)
 }
 
 // ---------------------------------------------------------------- bits
@@ -148,7 +181,7 @@ func runBits(c *Case) {
 		got[i] = int(x)
 	}
 	if !reflect.DeepEqual(got, c.Bin) {
-		mism(c, "bits", "GetBitmaskBinary", got, c.Bin)
+		mism(c, conf, "bits", "GetBitmaskBinary", got, c.Bin)
 	}
 	lb := util.LoadBitmask(c.Size, append([]byte(nil), bin...))
 	ones, zeros := 0, 0
@@ -161,12 +194,9 @@ func runBits(c *Case) {
 				zeros++
 			}
 			evals.Add(2)
-			if g := bm.HasBitsIn(l, r); g != exp {
-				mism(c, "bits", fmt.Sprintf("HasBitsIn(%d,%d)", l, r), g, exp)
-			}
-			if g := lb.HasBitsIn(l, r); g != exp {
-				mism(c, "bits-loaded", fmt.Sprintf("HasBitsIn(%d,%d) after LoadBitmask", l, r), g, exp)
-			}
+			// the table is the reference itself: 1 iff a set bit lies in [l, r]
+			prune(c, "bits", fmt.Sprintf("HasBitsIn(%d,%d)", l, r), bm.HasBitsIn(l, r), exp, exp)
+			prune(c, "bits-loaded", fmt.Sprintf("HasBitsIn(%d,%d) after LoadBitmask", l, r), lb.HasBitsIn(l, r), exp, exp)
 		}
 	}
 	if ones > 0 && zeros > 0 {
@@ -194,24 +224,24 @@ func runDist(c *Case) {
 	}
 	js, err := d.MarshalJSON()
 	if err != nil {
-		mism(c, "dist", "MarshalJSON error: "+err.Error(), nil, nil)
+		mism(c, prop, "dist", "MarshalJSON error: "+err.Error(), nil, nil)
 		return
 	}
 	var dj distJSON
 	if err := json.Unmarshal(js, &dj); err != nil {
-		mism(c, "dist", "MarshalJSON output unreadable: "+string(js), nil, nil)
+		mism(c, conf, "dist", "MarshalJSON output unreadable: "+string(js), nil, nil)
 		return
 	}
 	if int64(dj.From) != at(c.From) || int64(dj.To) != at(c.To) || int64(dj.Bucket) != c.BucketSec {
-		mism(c, "dist-json", "from/to/bucket", []int64{int64(dj.From) - distBase, int64(dj.To) - distBase, int64(dj.Bucket)},
+		mism(c, conf, "dist-json", "from/to/bucket", []int64{int64(dj.From) - distBase, int64(dj.To) - distBase, int64(dj.Bucket)},
 			[]int64{c.From * tick, c.To * tick, c.BucketSec})
 	}
 	if got := setBitsOf(dj.Bitmask, c.Size); !reflect.DeepEqual(got, c.Bits) || len(dj.Bitmask) != (c.Size+7)/8 {
-		mism(c, "dist-json", "bitmask", map[string]any{"bits": got, "bytes": len(dj.Bitmask)}, map[string]any{"bits": c.Bits, "size": c.Size})
+		mism(c, conf, "dist-json", "bitmask", map[string]any{"bits": got, "bytes": len(dj.Bitmask)}, map[string]any{"bits": c.Bits, "size": c.Size})
 	}
 	var rt seq.MIDsDistribution
 	if err := rt.UnmarshalJSON(js); err != nil {
-		mism(c, "dist-json", "UnmarshalJSON error: "+err.Error(), nil, nil)
+		mism(c, prop, "dist-json", "UnmarshalJSON error: "+err.Error(), nil, nil)
 		return
 	}
 	ones, zeros := 0, 0
@@ -225,12 +255,10 @@ func runDist(c *Case) {
 				zeros++
 			}
 			evals.Add(2)
-			if g := d.IsIntersecting(seq.MID(at(qf)), seq.MID(at(qt))); g != exp {
-				mism(c, "dist", fmt.Sprintf("IsIntersecting(%d,%d)", qf, qt), g, exp)
-			}
-			if g := rt.IsIntersecting(seq.MID(at(qf)), seq.MID(at(qt))); g != expRT {
-				mism(c, "dist-json", fmt.Sprintf("IsIntersecting(%d,%d) after JSON round trip", qf, qt), g, expRT)
-			}
+			must := c.Must[qf][qt-qf] == 1
+			prune(c, "dist", fmt.Sprintf("IsIntersecting(%d,%d)", qf, qt), d.IsIntersecting(seq.MID(at(qf)), seq.MID(at(qt))), exp, must)
+			prune(c, "dist-json", fmt.Sprintf("IsIntersecting(%d,%d) after JSON round trip", qf, qt),
+				rt.IsIntersecting(seq.MID(at(qf)), seq.MID(at(qt))), expRT, must)
 		}
 	}
 	if ones > 0 && zeros > 0 {
@@ -250,6 +278,9 @@ func (t timeMap) real(v int64) seq.MID {
 	case v == 0:
 		return 0
 	case v == t.qinf:
+		if *infRep == "maxuint64" {
+			return seq.MID(math.MaxUint64) // "no upper bound" as the repository's own test environment writes it
+		}
 		return seq.MID(math.MaxInt64)
 	}
 	return seq.MID(t.base + v)
@@ -315,6 +346,8 @@ func sameInfo(got, exp InfoM, withDist bool) bool {
 
 const unitCreation = int64(1_760_000_000_123)
 
+func infOnly() bool { return *infRep == "maxuint64" }
+
 func runRealUnit(c *Case) {
 	t := timeMap{base: unitCreation - c.C, qinf: c.QInf}
 	pruned := false
@@ -326,32 +359,33 @@ func runRealUnit(c *Case) {
 		}
 		got, err := distOf(info, t)
 		if err != nil {
-			mism(c, "info", "distribution unreadable: "+err.Error(), nil, nil)
+			mism(c, conf, "info", "distribution unreadable: "+err.Error(), nil, nil)
 			continue
 		}
 		evals.Add(1)
-		if !sameInfo(got, f.Info, true) {
-			mism(c, "info", fmt.Sprintf("frac %d: Info after BuildDistribution", i), got, f.Info)
+		if !infOnly() && !sameInfo(got, f.Info, true) {
+			mism(c, conf, "info", fmt.Sprintf("frac %d: Info after BuildDistribution", i), got, f.Info)
 		}
 		restored := &frac.Info{}
 		restored.Load(info.Save())
 		gotRT, err := distOf(restored, t)
 		if err != nil {
-			mism(c, "info-restored", "distribution unreadable: "+err.Error(), nil, nil)
+			mism(c, conf, "info-restored", "distribution unreadable: "+err.Error(), nil, nil)
 			continue
 		}
 		evals.Add(1)
-		if !sameInfo(gotRT, f.InfoRT, true) {
-			mism(c, "info-restored", fmt.Sprintf("frac %d: Info after Save/Load", i), gotRT, f.InfoRT)
+		if !infOnly() && !sameInfo(gotRT, f.InfoRT, true) {
+			mism(c, conf, "info-restored", fmt.Sprintf("frac %d: Info after Save/Load", i), gotRT, f.InfoRT)
 		}
 		for qi, q := range c.Qs {
+			if infOnly() && q.Qt != c.QInf {
+				continue
+			}
 			evals.Add(2)
-			if g := info.IsIntersecting(t.real(q.Qf), t.real(q.Qt)); g != q.Hit[i] {
-				mism(c, "info", fmt.Sprintf("frac %d query %d: IsIntersecting(%d,%d)", i, qi, q.Qf, q.Qt), g, q.Hit[i])
-			}
-			if g := restored.IsIntersecting(t.real(q.Qf), t.real(q.Qt)); g != q.HitRT[i] {
-				mism(c, "info-restored", fmt.Sprintf("frac %d query %d: IsIntersecting(%d,%d) after Save/Load", i, qi, q.Qf, q.Qt), g, q.HitRT[i])
-			}
+			prune(c, "info", fmt.Sprintf("frac %d query %d: IsIntersecting(%d,%d)", i, qi, q.Qf, q.Qt),
+				info.IsIntersecting(t.real(q.Qf), t.real(q.Qt)), q.Hit[i], q.Must[i])
+			prune(c, "info-restored", fmt.Sprintf("frac %d query %d: IsIntersecting(%d,%d) after Save/Load", i, qi, q.Qf, q.Qt),
+				restored.IsIntersecting(t.real(q.Qf), t.real(q.Qt)), q.HitRT[i], q.Must[i])
 			if !q.Hit[i] && q.Qt >= f.Info.From && q.Qf <= f.Info.To {
 				pruned = true
 			}
@@ -457,7 +491,7 @@ func runRealE2E(c *Case) {
 				os.Remove(filepath.Join(e.O.Dir, ".frac-cache"))
 			}
 			if err := e.Restart(); err != nil {
-				mism(c, state, "restart failed: "+err.Error(), nil, nil)
+				mism(c, prop, state, "restart failed: "+err.Error(), nil, nil)
 				return
 			}
 		case "restart-fraccache":
@@ -474,7 +508,7 @@ func runRealE2E(c *Case) {
 				time.Sleep(2 * time.Millisecond)
 			}
 			if err := e.Restart(); err != nil {
-				mism(c, state, "restart failed: "+err.Error(), nil, nil)
+				mism(c, prop, state, "restart failed: "+err.Error(), nil, nil)
 				return
 			}
 		}
@@ -488,12 +522,12 @@ func runRealE2E(c *Case) {
 		for i, fm := range c.Fracs {
 			rf := byName[names[i]]
 			if rf == nil {
-				mism(c, state, fmt.Sprintf("fraction %d (%s) disappeared", i, names[i]), nil, nil)
+				mism(c, prop, state, fmt.Sprintf("fraction %d (%s) disappeared", i, names[i]), nil, nil)
 				return
 			}
 			got, err := distOf(rf.Info(), t)
 			if err != nil {
-				mism(c, state, "distribution unreadable: "+err.Error(), nil, nil)
+				mism(c, conf, state, "distribution unreadable: "+err.Error(), nil, nil)
 				continue
 			}
 			exp := fm.Info
@@ -501,30 +535,32 @@ func runRealE2E(c *Case) {
 				exp = fm.InfoRT
 			}
 			evals.Add(1)
+			if infOnly() {
+				continue
+			}
 			if !sameInfo(got, exp, i == 0) || (i > 0 && exp.HasDist && !got.HasDist) {
-				mism(c, state, fmt.Sprintf("frac %d: Info", i), got, exp)
+				mism(c, conf, state, fmt.Sprintf("frac %d: Info", i), got, exp)
 			}
 		}
 		first := byName[names[0]]
 		for qi, q := range c.Qs {
+			if infOnly() && q.Qt != c.QInf {
+				continue
+			}
 			from, to := t.real(q.Qf), t.real(q.Qt)
 			expHit := q.Hit[0]
 			if state != "fresh" {
 				expHit = q.HitRT[0]
 			}
 			evals.Add(2)
-			if g := first.IsIntersecting(from, to); g != expHit {
-				mism(c, state, fmt.Sprintf("query %d: first fraction IsIntersecting(%d,%d)", qi, q.Qf, q.Qt), g, expHit)
-			}
+			prune(c, state, fmt.Sprintf("query %d: first fraction IsIntersecting(%d,%d)", qi, q.Qf, q.Qt), first.IsIntersecting(from, to), expHit, q.Must[0])
 			inList := false
 			for _, f := range all.FilterInRange(from, to) {
 				if f.Info().Name() == names[0] {
 					inList = true
 				}
 			}
-			if inList != expHit {
-				mism(c, state, fmt.Sprintf("query %d: first fraction in FilterInRange(%d,%d)", qi, q.Qf, q.Qt), inList, expHit)
-			}
+			prune(c, state, fmt.Sprintf("query %d: first fraction in FilterInRange(%d,%d)", qi, q.Qf, q.Qt), inList, expHit, q.Must[0])
 			order := seq.DocsOrderDesc
 			if q.Order == "asc" {
 				order = seq.DocsOrderAsc
@@ -533,7 +569,7 @@ func runRealE2E(c *Case) {
 			res, err := env.SearchFracs(all, fpi, sp)
 			evals.Add(1)
 			if err != nil {
-				mism(c, state, fmt.Sprintf("query %d: search error: %v", qi, err), nil, nil)
+				mism(c, prop, state, fmt.Sprintf("query %d: search error: %v", qi, err), nil, nil)
 				continue
 			}
 			got := make([][2]int64, 0, len(res.IDs))
@@ -545,7 +581,7 @@ func runRealE2E(c *Case) {
 				exp = [][2]int64{}
 			}
 			if int(res.Total) != q.Total || !reflect.DeepEqual(got, exp) {
-				mism(c, state, fmt.Sprintf("query %d [%d,%d] %s %s limit %d: pruned search differs from the reference over all documents", qi, q.Qf, q.Qt, q.Kind, q.Order, q.Limit),
+				mism(c, prop, state, fmt.Sprintf("query %d [%d,%d] %s %s limit %d: pruned search differs from the reference over all documents", qi, q.Qf, q.Qt, q.Kind, q.Order, q.Limit),
 					map[string]any{"total": res.Total, "ids": got}, map[string]any{"total": q.Total, "ids": exp})
 			}
 			if q.Total > 0 && q.Total < allDocs {
@@ -556,15 +592,18 @@ func runRealE2E(c *Case) {
 				docs, err := fracmanager.NewFetcher(2).FetchDocs(context.Background(), all, res.QPR.IDs)
 				evals.Add(1)
 				if err != nil {
-					mism(c, state, fmt.Sprintf("query %d: fetch of found ids: %v", qi, err), nil, nil)
+					mism(c, prop, state, fmt.Sprintf("query %d: fetch of found ids: %v", qi, err), nil, nil)
 				} else {
 					for k, d := range docs {
 						if len(d) == 0 {
-							mism(c, state, fmt.Sprintf("query %d: found id %v (hint %q) is not fetchable", qi, res.IDs[k], res.QPR.IDs[k].Hint), nil, nil)
+							mism(c, prop, state, fmt.Sprintf("query %d: found id %v (hint %q) is not fetchable", qi, res.IDs[k], res.QPR.IDs[k].Hint), nil, nil)
 						}
 					}
 				}
 			}
+		}
+		if infOnly() {
+			continue
 		}
 		// every stored document is fetchable by ID without a hint (Fetcher: FilterInRange + Contains)
 		var ids []seq.IDSource
@@ -578,7 +617,7 @@ func runRealE2E(c *Case) {
 		docs, err := fracmanager.NewFetcher(2).FetchDocs(context.Background(), all, ids)
 		evals.Add(1)
 		if err != nil {
-			mism(c, state, "fetch error: "+err.Error(), nil, nil)
+			mism(c, prop, state, "fetch error: "+err.Error(), nil, nil)
 		} else {
 			want := map[seq.ID]string{}
 			for k, x := range c.Fetch {
@@ -586,7 +625,7 @@ func runRealE2E(c *Case) {
 			}
 			for k, d := range docs {
 				if string(d) != want[ids[k].ID] {
-					mism(c, state, fmt.Sprintf("fetch of stored id [%d,%d]", t.model(ids[k].ID.MID), ids[k].ID.RID), string(d), want[ids[k].ID])
+					mism(c, prop, state, fmt.Sprintf("fetch of stored id [%d,%d]", t.model(ids[k].ID.MID), ids[k].ID.RID), string(d), want[ids[k].ID])
 				}
 			}
 		}
@@ -609,7 +648,7 @@ func runCase(c *Case) {
 		}
 		defer func() {
 			if r := recover(); r != nil {
-				mism(c, c.K, fmt.Sprintf("panic: %v", r), nil, nil)
+				mism(c, prop, c.K, fmt.Sprintf("panic: %v", r), nil, nil)
 			}
 		}()
 		switch c.K {
@@ -664,5 +703,5 @@ func main() {
 	}
 	close(ch)
 	wg.Wait()
-	emit(map[string]any{"summary": true, "cases": n, "evals": evals.Load(), "nontrivial": nontriv.Load(), "corpora": corpora.Load()})
+	emit(map[string]any{"summary": true, "cases": n, "evals": evals.Load(), "nontrivial": nontriv.Load(), "corpora": corpora.Load(), "mismatches": nmism.Load()})
 }
